@@ -11,8 +11,9 @@
    the function of t (called, result not yet stored); [execs s t] = how often the function of t has
    been called; [quiet e] = e is not a raise, a stop request or a crash. *)
 From Coq Require Import List Bool PArith.
+From JugV Require Import Model.LockPrims.
 From JugV Require Import Model.MapReduce Model.Slice Model.Deps Model.Exec Model.ExecCase Model.ExecExample
-  Proofs.ExecFacts Proofs.ExecTheorems.
+  Proofs.ExecFacts Proofs.ExecTheorems Proofs.ExecLockFacts.
 Import ListNotations.
 
 (* (a) two executions of the same task never overlap *)
@@ -56,6 +57,18 @@ Theorem C02_lock_discipline : forall (V : Type) (C : cfg V), framed C ->
 Proof. exact (@reach_Inv). Qed.
 Print Assumptions C02_lock_discipline.
 
+(* what the protocol asks of the locks is exactly the atomic specification that C04 proves of every lock
+   backend (Model/LockPrims.v [spec_op]: get on a free name wins, get on a held or failed name answers
+   False, release frees, fail on a held name marks it): the lock calls of any run ([lock_calls tr]; the two
+   operator commands that edit locks wholesale included), replayed on that specification from "all free",
+   get exactly the answers the run observed ([ok]) and end in the lock table of the protocol's state *)
+Theorem C02_uses_only_the_atomic_lock : forall (V : Type) (C : cfg V), framed C ->
+  forall r0 tr s, reach C r0 tr s ->
+  let (g, ok) := spec_calls (fun _ => GFree) (lock_calls tr) in
+  ok = true /\ forall t, g t = abs_lock (locks s t).
+Proof. exact (@uses_the_atomic_lock). Qed.
+Print Assumptions C02_uses_only_the_atomic_lock.
+
 (* the theorems apply to every generated program *)
 Theorem C02_programs_qualify : forall p, framed (prog_cfg p).
 Proof. exact programs_are_framed. Qed.
@@ -71,3 +84,10 @@ Example C02_nonvacuous :
              map (execs s) [1; 2; 3]%positive = [1; 1; 1] /\
              map (results s) [1; 2; 3]%positive = [Some ex_v1; Some ex_v2; Some ex_v3]).
 Proof. split; eexists; vm_compute; repeat split; reflexivity. Qed.
+
+(* ... and the lock calls of that run: 9 of them, one get refused (worker 1 lost the race for task 1) *)
+Example C02_atomic_lock_nonvacuous :
+  length (lock_calls ex_trace) = 9 /\
+  existsb (fun c => match c with LCall _ OGet _ (OB false) => true | _ => false end) (lock_calls ex_trace) = true /\
+  snd (spec_calls (fun _ => GFree) (lock_calls ex_trace)) = true.
+Proof. vm_compute. repeat split; reflexivity. Qed.
